@@ -223,17 +223,31 @@ def codec_case(ctx: Any, e: dict[str, Any], chain: str, sid: str | None, rid: st
     if got["kind"] != declared:
         ctx.fail(case, f"C07:kind-not-exposed:{'declared' if declared is not None else 'invented'}",
                  f"error_kind {got['kind']!r} != declared kind {declared!r}")
-    # K: the model
+    # K: the model (batched by the caller)
     if ctx.driver is not None:
         extra = json.loads(md[b"vgi_rpc.log_extra"])
         a = {"cls": s2j(view["type"]), "text": s2j(view["text"]), "kind": kind_attr(x), "traceback": s2j(extra["traceback"]),
              "cause": s2j(extra["cause"]) if "cause" in extra else None, "context": s2j(extra["context"]) if "context" in extra else None,
              "sid": s2j(sid) if sid is not None else None, "rid": s2j(rid) if rid else None}
-        m = ctx.driver.call("C07.roundtrip", a)
+        PENDING.append((case, got, a))
+        if len(PENDING) >= 300:
+            flush_codec(ctx)
+
+
+PENDING: list[tuple[dict[str, Any], dict[str, Any], dict[str, Any]]] = []
+
+
+def flush_codec(ctx: Any) -> None:
+    if not PENDING or ctx.driver is None:
+        PENDING.clear()
+        return
+    res = ctx.driver.batch([("C07.roundtrip", a) for _, _, a in PENDING])
+    for (case, got, _), m in zip(PENDING, res):
         mod = {"k": m["k"], "type": _s(m.get("type")), "message": _s(m.get("message")), "kind": _s(m.get("kind")),
                "rid": _s(m.get("rid")), "traceback": _s(m.get("traceback"))}
         if mod != got:
             ctx.mismatch(case, _short(mod), _short(got), "codec round trip: Lean C07.roundtrip vs _write_error_stream + _dispatch_log_or_error")
+    PENDING.clear()
 
 
 def _short(d: dict[str, Any]) -> dict[str, Any]:
@@ -243,7 +257,9 @@ def _short(d: dict[str, Any]) -> dict[str, Any]:
 # ------------------------------------------------------------------------------------------ 2. peer error batches
 
 
-def jtag(v: Any) -> dict[str, Any]:
+def jtag(v: Any, depth: int = 0) -> dict[str, Any]:
+    """tagged JSON for the driver; the model only inspects the top-level object's keys and whether a value is a string, a
+    leaf or a container, so containers below the top level are sent empty (keeps arbitrarily deep values cheap)"""
     if v is None:
         return {"t": "null"}
     if isinstance(v, bool):
@@ -253,9 +269,9 @@ def jtag(v: Any) -> dict[str, Any]:
     if isinstance(v, str):
         return {"t": "str", "v": s2j(v)}
     if isinstance(v, list):
-        return {"t": "arr", "v": [jtag(x) for x in v]}
+        return {"t": "arr", "v": [jtag(x, depth + 1) for x in v] if depth == 0 else []}
     if isinstance(v, dict):
-        return {"t": "obj", "v": [[s2j(k), jtag(x)] for k, x in v.items()]}
+        return {"t": "obj", "v": [[s2j(k), jtag(x, depth + 1)] for k, x in v.items()] if depth == 0 else []}
     raise TypeError(type(v))
 
 
@@ -272,13 +288,14 @@ def mdval(b: bytes | None) -> dict[str, Any] | None:
 
 def parsed_of(raw: bytes) -> Any:
     try:
-        return {"ok": jtag(json.loads(raw.decode("utf-8", "replace")))}
+        v = json.loads(raw.decode("utf-8", "replace"))
     except json.JSONDecodeError:
         return "json_error"
     except ValueError:
         return "value_error"
     except RecursionError:
         return "recursion"
+    return {"ok": jtag(v)}
 
 
 def wire_args(rows: int, md: dict[bytes, bytes] | None) -> dict[str, Any]:
@@ -291,6 +308,7 @@ def wire_args(rows: int, md: dict[bytes, bytes] | None) -> dict[str, Any]:
     if raw is not None:
         x = mdval(raw)
         assert x is not None
+        x["text"] = []  # the model never looks at the JSON text, only at "valid UTF-8?" and the outcome of json.loads
         x["parsed"] = parsed_of(raw)
         m["extra"] = x
     return {"rows": rows, "md": m}
@@ -322,8 +340,7 @@ def impl_dispatch(rows: int, md: dict[bytes, bytes] | None) -> dict[str, Any]:
     return {"k": "delivered", "level": m.level.value, "text": m.message, "extra": [[k, v] for k, v in (m.extra or {}).items()]}
 
 
-def model_dispatch(ctx: Any, rows: int, md: dict[bytes, bytes] | None) -> dict[str, Any]:
-    m = ctx.driver.call("C08.dispatch", wire_args(rows, md))
+def _model_out(m: dict[str, Any]) -> dict[str, Any]:
     out: dict[str, Any] = {"k": m["k"]}
     if m["k"] == "rpc":
         out.update(type=_s(m["type"]), message=_s(m["message"]), kind=_s(m["kind"]), rid=_s(m["rid"]), traceback=_s(m["traceback"]))
@@ -332,6 +349,14 @@ def model_dispatch(ctx: Any, rows: int, md: dict[bytes, bytes] | None) -> dict[s
     elif m["k"] == "crash":
         out["exc"] = m["exc"]
     return out
+
+
+def model_dispatch(ctx: Any, rows: int, md: dict[bytes, bytes] | None) -> dict[str, Any]:
+    return _model_out(ctx.driver.call("C08.dispatch", wire_args(rows, md)))
+
+
+def model_dispatch_many(ctx: Any, items: list[tuple[int, dict[bytes, bytes] | None]]) -> list[dict[str, Any]]:
+    return [_model_out(m) for m in ctx.driver.batch([("C08.dispatch", wire_args(r, md)) for r, md in items])]
 
 
 def canon_impl_extras(out: dict[str, Any], md: dict[bytes, bytes] | None) -> dict[str, Any]:
@@ -346,10 +371,8 @@ def canon_impl_extras(out: dict[str, Any], md: dict[bytes, bytes] | None) -> dic
         return out
     o = dict(out)
     if o["k"] == "delivered":
-        o["extra"] = [[k, render(parsed[k]) if k in parsed and isinstance(parsed[k], (list, dict)) and k not in ("server_id", "request_id") else v]
-                      for k, v in o["extra"]]
-        # server_id / request_id override a peer's extras of the same name: keep the implementation's value there
-        o["extra"] = [[k, v] for k, v in o["extra"]]
+        # (a framework id that overwrote a peer extra of the same name is not the str() of the peer's value: left alone)
+        o["extra"] = [[k, "?" if isinstance(parsed.get(k), (list, dict)) and v == str(parsed[k]) else v] for k, v in o["extra"]]
     if o["k"] == "rpc":
         if isinstance(parsed.get("exception_type"), (list, dict)):
             o["type"] = "?"
@@ -358,7 +381,7 @@ def canon_impl_extras(out: dict[str, Any], md: dict[bytes, bytes] | None) -> dic
     return o
 
 
-def peer_error_case(ctx: Any, md: dict[bytes, bytes], tag: str) -> None:
+def peer_error_case(ctx: Any, md: dict[bytes, bytes], tag: str, mod: dict[str, Any] | None = None) -> None:
     case = {"layer": "peer", "md": {k.decode(): v.hex() if len(v) < 200 else v[:50].hex() + "…" for k, v in md.items()}}
     got = canon_impl_extras(impl_dispatch(0, md), md)
     ctx.case(case, nontrivial=True, tags=("layer:peer", tag))
@@ -379,7 +402,8 @@ def peer_error_case(ctx: Any, md: dict[bytes, bytes], tag: str) -> None:
         if got["kind"] != want:
             ctx.fail(case, f"C07:kind-not-exposed:peer:{'top' if top is not None else 'extra'}", f"error_kind {got['kind']!r}, expected {want!r}")
     if ctx.driver is not None:
-        mod = model_dispatch(ctx, 0, md)
+        if mod is None:
+            mod = model_dispatch(ctx, 0, md)
         if mod != got:
             ctx.mismatch(case, _short(mod), _short(got), "peer EXCEPTION batch: Lean dispatchLog vs _dispatch_log_or_error")
 
@@ -611,9 +635,12 @@ def run(ctx: Any) -> None:
     while done < n_codec:
         codec_case(ctx, gen_exc(rng), rng.choice(["none", "none", "cause", "context"]), rng.choice([None, "srv-1", "", "sérv"]), rng.choice(["", "", "rid", "р"]))
         done += 1
+    flush_codec(ctx)
     # 2. peer error batches
-    for md, tag in peer_error_cases(rng, ctx.budget(600, 20000)):
-        peer_error_case(ctx, md, tag)
+    pcs = peer_error_cases(rng, ctx.budget(600, 20000))
+    mods = model_dispatch_many(ctx, [(0, md) for md, _ in pcs]) if ctx.driver is not None else [None] * len(pcs)
+    for (md, tag), mod in zip(pcs, mods):
+        peer_error_case(ctx, md, tag, mod)
     # 3. sites x transports
     for excs in corpus_excs():
         for cfg in configs():
@@ -631,6 +658,7 @@ def replay(ctx: Any, case: dict[str, Any]) -> None:
     layer = case.get("layer")
     if layer == "codec" and "arg" in case.get("exc", {}):
         codec_case(ctx, case["exc"], case["chain"], case["sid"], case["rid"])
+        flush_codec(ctx)
     elif layer == "peer":
         md = {k.encode(): bytes.fromhex(v) for k, v in case["md"].items() if not v.endswith("…")}
         peer_error_case(ctx, md, "replay")
